@@ -3,6 +3,7 @@
 use crate::sched::Sim;
 
 pub mod breq;
+pub mod c05d;
 pub mod c07;
 pub mod c08;
 pub mod c10;
@@ -112,6 +113,7 @@ pub const ASSUME: &[&str] = &[
 ];
 
 pub fn all() -> Vec<PropDef> {
+    let _ = DAEMON_C05.set(c05d::run);
     let mut v = Vec::new();
     v.push(selftest::def());
     v.push(server::def_c04());
